@@ -30,8 +30,14 @@ func verifStateRemains(states []types.State, burn bool, a types.Account) sdk.Dec
 func Verif_C04_shares_exact() {
 	k := verifDistKeeper()
 	ctx := verifCtx(verif_time_range("now", 1600000000, 1900000000))
-	nshares := verif_choice("nshares", 3)
-	sd := types.SubDistributor{Name: "sd1", Sources: []*types.Account{{Type: types.Main}}}
+	maxShares := 2 // named shares: 0..1 (quick), 0..2 (thorough)
+	if verif_tier() > 0 {
+		maxShares = 3
+	}
+	nshares := verif_choice("nshares", maxShares)
+	// the source is MAIN or a module account (a MAIN destination is only accepted when MAIN is not also a source)
+	src := dSourcePool[verif_choice("src", 2)]
+	sd := types.SubDistributor{Name: "sd1", Sources: []*types.Account{&src}}
 	sd.Destinations.PrimaryShare = dDestPool[verif_choice("primary", len(dDestPool))]
 	sd.Destinations.BurnShare = verif_dec_range("burn", "0", "999999999999999999")
 	for i := 0; i < nshares; i++ {
@@ -41,6 +47,7 @@ func Verif_C04_shares_exact() {
 	}
 	verif_assume(sd.Validate() == nil)
 	// uniqueness of accounts inside one sub-distributor is part of the cross validation; reuse it on a closed configuration
+	needMain := src.Type != types.Main
 	closing := types.SubDistributor{Name: "closing", Sources: []*types.Account{}, Destinations: types.Destinations{
 		PrimaryShare: types.Account{Type: types.ModuleAccount, Id: dGEB}, BurnShare: sdk.ZeroDec()}}
 	seenSrc := map[string]bool{}
@@ -58,6 +65,9 @@ func Verif_C04_shares_exact() {
 	addSrc(sd.Destinations.PrimaryShare)
 	for _, sh := range sd.Destinations.Shares {
 		addSrc(sh.Destination)
+	}
+	if needMain && !seenSrc[types.Main+"-"] {
+		closing.Sources = append(closing.Sources, &types.Account{Type: types.Main}) // some sub-distributor must have the MAIN source
 	}
 	cfg := []types.SubDistributor{sd}
 	if len(closing.Sources) > 0 {
